@@ -71,6 +71,8 @@ def tasks(tier, seed):
     for Ms, qd, ns in ([((3, 2, 2), 'LU', (1, 2, 1)), ((3, 2, 2), 'IE', (2, 1, 1)), ((3, 2, 2), 'LU', (1, 1, 1)), ((2, 2, 1), 'LU', (1, 1, 1)), ((3, 2), 'IE', (2, 1))] if quick else
                        [(Ms_, qd_, (a, b, 1)) for Ms_ in ((3, 2, 2), (3, 2, 1), (4, 3, 2), (2, 2, 2), (3, 3, 2)) for qd_ in ('LU', 'IE', 'MIN-SR-S') for a in (1, 2) for b in (1, 2, 3)]):
         T.append(('multigrid', Ms, qd, ns))
+    for Ms, qd, ns in ([((3, 2), 'LU', (1, 1)), ((3, 2, 2), 'IE', (1, 1, 1))] if quick else [((3, 2), 'LU', (1, 1)), ((3, 2, 2), 'IE', (1, 1, 1)), ((4, 2), 'IE', (2, 1)), ((3, 2, 1), 'LU', (1, 2, 1)), ((5, 3), 'LU', (1, 1))]):
+        T.append(('multigrid', Ms, qd, ns, True))  # prolongation of values and right-hand sides
     return T
 
 
@@ -85,7 +87,7 @@ def run_task(rep, task):
     elif task[0] == 'twogrid':
         twogrid_case(rep, task[1], task[2], task[3], task[4])
     elif task[0] == 'multigrid':
-        multigrid_case(rep, tuple(task[1]), task[2], tuple(task[3]))
+        multigrid_case(rep, tuple(task[1]), task[2], tuple(task[3]), bool(task[4]) if len(task) > 4 else False)
 
 
 def symmat(name, shape, lower=False, pad=True, strict=False):
@@ -569,8 +571,8 @@ def _mg_run(d, Ms, setv, symbolic):
     return out, tabs
 
 
-def mg_desc(Ms, qd, ns, lam, dtf, prob, space):
-    return dict(problem_class=prob, problem_params={'A': np.array([[lam]])}, sweeper_class=generic_implicit,
+def mg_desc(Ms, qd, ns, lam, dtf, prob, space, finter=False):
+    return dict(base_transfer_params={'finter': finter}, problem_class=prob, problem_params={'A': np.array([[lam]])}, sweeper_class=generic_implicit,
                 sweeper_params={'num_nodes': list(Ms), 'quad_type': 'RADAU-RIGHT', 'QI': qd}, level_params={'dt': dtf, 'restol': -1, 'nsweeps': list(ns)},
                 step_params={'maxiter': 3}, space_transfer_class=space)
 
@@ -611,9 +613,11 @@ def mg_spec(tabs, Ms, ns, z, u0, U, lin, solve):
     return cur[0]
 
 
-def multigrid_case(rep, Ms, qd, ns):
+def multigrid_case(rep, Ms, qd, ns, finter=False):
     """three (or two) levels with per-level sweep counts: the real controller cycle against the multigrid-in-time iteration (all fine iterates)"""
-    name = f'multigrid/M{"-".join(map(str, Ms))}/{qd}/ns{"-".join(map(str, ns))}'
+    # (finter: the fine right-hand sides are corrected by the prolonged coarse change instead of being re-evaluated; for a linear problem both
+    # give the same values, so the specification is the same)
+    name = f'multigrid/M{"-".join(map(str, Ms))}/{qd}/ns{"-".join(map(str, ns))}' + ('/finter' if finter else '')
     lam, dtf = -1.25, 0.25
     c = Ctx()
     Ctx.cur = c
@@ -621,7 +625,7 @@ def multigrid_case(rep, Ms, qd, ns):
         u0v = z3.Real('u0')
         Uv = [z3.Real(f'U{m}') for m in range(1, Ms[0] + 1)]
         sym = {'u0': u0v, **{f'U{m}': Uv[m - 1] for m in range(1, Ms[0] + 1)}}
-        out, tabs = _mg_run(mg_desc(Ms, qd, ns, lam, dtf, sp.LinProb, sp.Inject), Ms, lambda k, P: sp.mkmesh(P, [SymReal(sym[k])]), True)
+        out, tabs = _mg_run(mg_desc(Ms, qd, ns, lam, dtf, sp.LinProb, sp.Inject, finter), Ms, lambda k, P: sp.mkmesh(P, [SymReal(sym[k])]), True)
         out = [R(o) for o in out]
     finally:
         Ctx.cur = None
@@ -649,10 +653,10 @@ def multigrid_case(rep, Ms, qd, ns):
     if res == 'sat':
         rep.replayed += 1
         env = {str(v): float(model_value(model, v)) for v in Uv + [u0v]}
-        dev = float_multigrid(Ms, qd, ns, lam, dtf, env)
+        dev = float_multigrid(Ms, qd, ns, lam, dtf, env, finter)
         if dev > 1e-11:
             rep.violation(f'{PID}/multigrid-iteration/{qd}', f'{name}: real controller cycle deviates from the multigrid-in-time iteration with the configured sweep counts by {dev:.3e}',
-                          {'task': ['multigrid', list(Ms), qd, list(ns)], 'env': env, 'deviation': dev})
+                          {'task': ['multigrid', list(Ms), qd, list(ns), finter], 'env': env, 'deviation': dev})
         else:
             rep.unreproduced(name, {'env': env, 'float_deviation': dev})
     # sensitivity: a specification with one sweep more on the middle level on the way up must be refuted
@@ -668,10 +672,10 @@ def multigrid_case(rep, Ms, qd, ns):
     rep.sample({'case': name, 'free_variables': 'u0 and all fine node values in [-1,1]', 'tolerance': 1e-11}, limit=6)
 
 
-def float_multigrid(Ms, qd, ns, lam, dtf, env):
+def float_multigrid(Ms, qd, ns, lam, dtf, env, finter=False):
     from harness import sweepspec as ss
 
-    out, tabs = _mg_run(mg_desc(Ms, qd, ns, lam, dtf, ss.FLin, FloatInjectT), Ms, lambda k, P: P.dtype_u(P.init, val=float(env[k])), False)
+    out, tabs = _mg_run(mg_desc(Ms, qd, ns, lam, dtf, ss.FLin, FloatInjectT, finter), Ms, lambda k, P: P.dtype_u(P.init, val=float(env[k])), False)
     got = np.array([float(o) for o in out])
     z = lam * dtf
     lin = lambda row, vec: float(np.dot(np.asarray(row, dtype=float)[: len(vec)], np.asarray(vec, dtype=float)))
@@ -688,7 +692,7 @@ def replay(path):
     elif t[0] == 'defect':
         dev = float_defect(t[1], t[2], t[3])
     elif t[0] == 'multigrid':
-        dev = float_multigrid(tuple(t[1]), t[2], tuple(t[3]), -1.25, 0.25, d['env'])
+        dev = float_multigrid(tuple(t[1]), t[2], tuple(t[3]), -1.25, 0.25, d['env'], bool(t[4]) if len(t) > 4 else False)
         print('deviation', dev)
         print('REPRODUCED' if dev > 1e-11 else 'not reproduced')
         return 1 if dev > 1e-11 else 0
